@@ -33,7 +33,7 @@ structure USt where
 def USt.report (s : USt) (cls props kind detail : String) : USt :=
   let msg := s!"MISMATCH class={cls} props={props} kind={kind} line={s.lineNo} session={s.sid} {detail}"
   let s := if cls == "model" then { s with nModel := s.nModel + 1 } else { s with nSpec := s.nSpec + 1 }
-  if s.reports.size < 40 then { s with reports := s.reports.push msg } else s
+  if keepReport s.reports s!"class={cls} props={props} kind={kind} " then { s with reports := s.reports.push msg } else s
 
 def optNat (o : Option Nat) : String := match o with | some n => toString n | none => "-"
 
